@@ -24,8 +24,9 @@ type keyedWorld struct {
 }
 
 func (w *keyedWorld) call(t int, c M) Call {
-	op, k := str(c, "op"), num(c, "k")
-	desc := M{"op": op, "k": k, "v": 0}
+	op, kid := str(c, "op"), num(c, "k")
+	k := kid - 1 // key ids 1, 2 in the trace are the Go keys 0, 1
+	desc := M{"op": op, "k": kid, "v": 0}
 	if op == "Wait" {
 		wt, wn := num(c, "wt"), num(c, "wn")
 		return Call{Desc: M{"op": op, "k": 0, "v": 0, "wt": wt, "wn": wn}, Fn: func() M { return M{"rv": 0, "rok": true, "rep": []int{}} },
